@@ -78,7 +78,8 @@ def fe_outputs(res, nl):
     """limb terms of every Fe the function produces: the return value and/or `*self`"""
     outs = []
     ret = res.ret
-    if isinstance(ret, ssa.Agg) and ret.get("_adt", "").endswith("::Fe") and isinstance(ret.get("0"), ssa.Agg):
+    if isinstance(ret, ssa.Agg) and isinstance(ret.get("0"), ssa.Agg) and (ret.get("_adt", "").endswith("::Fe") or "_adt" not in ret):
+        # (an Fe built by copying *self and updating limbs in place has no constructor aggregate of its own)
         outs.append(("ret", [ret["0"].get_elem(i) for i in range(nl)]))
     mem = [res.mem_at_ret.get("arg1.0[%d]" % i) for i in range(nl)]
     if all(m is not None for m in mem):
@@ -104,7 +105,8 @@ class Op:
     def __init__(self, P, fn, nl, inline, params=None, args=None, tag=""):
         self.fn = fn
         self.tag = tag
-        self.res = ssa.Eval(P, fn, inline=inline, params=params or {}, args=args, maxdepth=4).run()
+        auto = ssa.auto_inline(P, fn)
+        self.res = ssa.Eval(P, fn, inline=lambda n: inline(n) or auto(n), params=params or {}, args=args, maxdepth=4).run()
         self.outs = fe_outputs(self.res, nl)
         roots = [t for _, ls in self.outs for t in ls]
         self.exempt = narrowing_exempt(roots)
@@ -488,7 +490,7 @@ def check_canonical_value64(ctx, P, B, rule="canonical-value"):
         if hf is None:
             ctx.lost(rule, T + "::" + h, "helper not found")
             return
-        r = ssa.Eval(P, hf).run()
+        r = ssa.Eval(P, hf, inline=lambda n: False).run()
         intern.Interner().canon_result(r)
         ret = r.ret
         if not isinstance(ret, ssa.Agg):
@@ -540,8 +542,8 @@ def check_canonical_value64(ctx, P, B, rule="canonical-value"):
     if bad:
         ctx.fail(rule, T, "the carry helpers of Fe::to_packed are not exact carry chains with the top carry folded back times 19 / dropped: %s" % "; ".join(bad), where=fn.where(), key="%s:%s:helpers" % (rule, T))
         return
-    # ---- composition from to_packed's own MIR
-    r = ssa.Eval(P, fn).run()
+    # ---- composition from to_packed's own MIR (the helper calls stay opaque here: their contracts were derived above)
+    r = ssa.Eval(P, fn, inline=lambda n: False).run()
     stages = []   # (helper, source stage index or None for the input, per-digit constants)
     call_ids = {}
     okc = True
